@@ -54,6 +54,20 @@ class Hooks(object):
     def should_inline(self, I, name, fn):
         return True
 
+    def snprintf_may_fail(self, I, st, inst, args, snap):
+        """Can this snprintf call return a negative value?  POSIX: EOVERFLOW when the rendering would be longer than INT_MAX, which
+        takes a precision or a field width in the conversion string (or a %s argument of that length).  Default: a string literal
+        without '.', '*' or a digit cannot; any other conversion string (built at run time, or with a precision / width) can."""
+        data = snap[3] if snap is not None and len(snap) > 3 else None
+        p = snap[2] if snap is not None else None
+        if data is not None and isinstance(p, PtrV) and not p.off.t and 0 <= p.off.c < len(data):
+            for b in data[p.off.c:]:
+                if b == 0:
+                    return False
+                if chr(b & 0xFF) in '.*0123456789s':
+                    return True
+        return True
+
     def unroll_for(self, I, fn, header, st=None):
         """Number of exactly interpreted iterations of the loop at `header` before it is abstracted (default: the same for all)."""
         return self.unroll
@@ -1177,6 +1191,12 @@ class Interp(object):
             for oid, o in st.objs.items():
                 if o.kind in ('ext', 'param', 'owner', 'heap', 'alloca') and oid not in objs:
                     objs.append(oid)
+        # an object the rule has shown to be read-only for the function under analysis (effect summary of its parameter) keeps its
+        # contents across the loop
+        ro = set(oid for oid in objs if st.objs[oid].attrs.get('readonly'))
+        if ro:
+            objs = [oid for oid in objs if oid not in ro]
+            cells = [c for c in cells if c[0] not in ro]
         return cells, objs
 
     def operand_type(self, fn, op):
@@ -2404,11 +2424,20 @@ class Interp(object):
                 fo = st.objs[args[2].obj]
                 snap = (dict(fo.cells), list(fo.regions), args[2], fo.attrs.get('data') if fo.attrs.get('const') else None)
             # returns the untruncated length; conversions of a floating-point value always produce at least one character
+            conts = []
+            if self.h.snprintf_may_fail(self, st, inst, args, snap):
+                # the failure return: nothing usable was rendered, the result is negative
+                sf = self.fork(st)
+                sf.ev('snprintf-fail', inst, d, nl, snap, list(args[3:]))
+                if isinstance(d, PtrV) and nl is not None:
+                    self.region_write(sf, inst, d, nl, ('havoc', 'snprintf'), 'snprintf')
+                # (C: a negative value; glibc 2.36 also returns 0 for "%.2147483647f")
+                conts.append((sf, self.fresh_int(sf, 32, 'printfail', signed=True, lo=-(1 << 31), hi=0)))
             res = self.fresh_int(st, 32, 'printed', signed=True, lo=1, hi=(1 << 31) - 1)
             st.ev('snprintf', inst, d, nl, snap, list(args[3:]), res)
             if isinstance(d, PtrV) and nl is not None:
                 self.region_write(st, inst, d, nl, ('havoc', 'snprintf'), 'snprintf')
-            return [(st, res)]
+            return [(st, res)] + conts
         if name in ('strcat', 'strncat', 'strcpy', 'strncpy') and len(args) >= 2 and isinstance(args[0], PtrV) and args[0].obj is not None:
             # C string writers: the bytes written are bounded by the lengths of the strings involved, not by the destination -
             # the destination's capacity is an obligation (checked like any other store range)
